@@ -260,6 +260,7 @@ PROPS = {
     "C19": dict(
         functions=[CS + "CorpusShufflingTool.corpus_from_reference#names", CS + "CorpusShufflingTool.corpus_from_reference#count",
                    CS + "CorpusShufflingTool.false_neg_shuffle", CS + "CorpusShufflingTool.shift_shuffle", CS + "CorpusShufflingTool.splits_shuffle", CS + "CorpusShufflingTool.corpus_shuffle#names",
+                   CS + "CorpusShufflingTool.__init__",
                    CT + "Continuum.__getitem__#annotator"]
                   + [CT + "Continuum." + m for m in ("__init__", "add", "remove", "iter_annotator", "annotators", "bounds")] + [CT + "Unit.__lt__"],
         oracles=[CS + "CorpusShufflingTool.corpus_shuffle"],
@@ -374,7 +375,7 @@ PROPS = {
                      DS + "AbstractDissimilarity._build_arrays_alignment",
                      SP + "ShuffleContinuumSampler.sample_from_continuum", SP + "StatisticalContinuumSampler.sample_from_continuum",
                      CS + "CorpusShufflingTool.corpus_from_reference#names", CS + "CorpusShufflingTool.corpus_from_reference#count",
-                     CS + "CorpusShufflingTool.false_neg_shuffle"],
+                     CS + "CorpusShufflingTool.false_neg_shuffle", CS + "CorpusShufflingTool.__init__"],
         effects="C14", effects_oracle=CT + "Continuum.compute_gamma#purity",
         oracles=[CT + "Continuum.compute_gamma#purity"],
         bounded=[dict(oracle=CT + "Continuum.compute_gamma#purity",
